@@ -96,6 +96,17 @@ func runC06(c *core.Ctx) {
 								plans = append(plans, plan{keyOf(ck): fk})
 							}
 						}
+						// output coercion failures: the resolver returns something its Int / [Int] field cannot represent
+						for _, ck := range calls {
+							if k := keyOf(ck); world.BadLeafFields[k.Field] {
+								plans = append(plans, plan{k: world.FaultBadLeaf})
+								for _, ck2 := range calls {
+									if ck2 != ck && dist == 0 {
+										plans = append(plans, plan{k: world.FaultBadLeaf, keyOf(ck2): world.FaultErr})
+									}
+								}
+							}
+						}
 						if !c.Thorough() && dist == 0 && len(calls) <= 10 {
 							// the same error instance returned by two different calls (an application's sentinel error)
 							for i := range calls {
